@@ -17,7 +17,7 @@ from ..simdev.powhsm import PowHsm
 
 ABSENT = "<absent>"
 
-HEX_BAD = [None, True, 0, 1.5, "", "zz", "abc", [], {}]
+HEX_BAD = [None, True, 0, 1.5, "", "zz", "abc", [], {}, " ", "\n\t ", "0x"]
 
 
 def menus():
@@ -34,7 +34,7 @@ def menus():
         ("auth",): [ABSENT, None, "x", [], {}, 5],
         ("auth", "receipt"): [ABSENT] + HEX_BAD + ["aa bb"],
         ("auth", "receipt_merkle_proof"): [ABSENT, None, "aa", [], [5], [""], ["zz"], ["aa", 5],
-                                           [None], {}, [["aa"]], ["aa", "b"], ["aa bb"]],
+                                           [None], {}, [["aa"]], ["aa", "b"], ["aa bb"], [" "], ["aa", "\t"]],
         ("auth", "foo"): ["bar"],
         ("message",): [ABSENT, None, "aa" * 32, [], {}, 5],
         ("message", "tx"): [ABSENT] + HEX_BAD + ["aabb", "01000000"],
@@ -47,9 +47,9 @@ def menus():
         ("message", "hash"): [ABSENT] + HEX_BAD + ["aa" * 31, "aa" * 33, "AA" * 32, "aa" * 32],
         ("message", "foo"): ["bar"],
         ("message:v1",): [ABSENT] + HEX_BAD + ["aa" * 31, "aa" * 33, {"hash": "aa" * 32}, "AB" * 32],
-        ("blocks",): [ABSENT, None, "aa", [], [5], [None], ["zz"], [""], [[]], {}, ["aa", 5]],
+        ("blocks",): [ABSENT, None, "aa", [], [5], [None], ["zz"], [""], [[]], {}, ["aa", 5], [" "]],
         ("brothers",): [ABSENT, None, "aa", [], "LEN+1", "LEN-1", [5, 5], [[5], []], [[""], []],
-                        [["zz"], []], [None, None], {}, [["aa", None], []]],
+                        [["zz"], []], [None, None], {}, [["aa", None], []], [[" "], []]],
         ("udValue",): [ABSENT] + HEX_BAD + ["SHORT", "LONG", "UPPER", "0xPREFIX", "0XPREFIX", "0xSHORT"],
     }
     return M
